@@ -277,17 +277,6 @@ Theorem C19_emd_pre_copies_safe : forall plen qlen pn pext qn qext crows ccols c
 Proof. exact PreC19Safe.emd_pre_copies_safe. Qed.
 Print Assumptions C19_emd_pre_copies_safe.
 
-(* Full (abstract counting lemma; the reason augment's three scratch lists fit into their n entries):
-   a duplicate-free list of columns below n that all carry the current mark has room for a column
-   without the mark.  The refinement "augment keeps the marks" (on_to_do for to_do; done for scan and
-   for ready ++ pending scan) is the missing part of the main loop, together with: a non-empty scan
-   after every rebuild (= an augmenting path exists: has_PM) and the pred / x / y chain of the final
-   flip (x[y[j]] = j along the alternating path). *)
-Theorem C19_marked_list_capacity : forall (n i j : Z) (mark : Z -> Z) (l : list Z),
-  0 <= n -> NoDup l -> (forall x, In x l -> 0 <= x < n /\ mark x = i) -> 0 <= j < n -> mark j <> i ->
-  zlen l < n /\ NoDup (j :: l).
-Proof. exact marked_list_capacity. Qed.
-Print Assumptions C19_marked_list_capacity.
 
 (* ================================================================== round 3 *)
 From Centro Require Proofs.HullC19Safe Proofs.AugC19Safe Proofs.MedianC19Safe Model.Lapjv Proofs.LapjvArr
@@ -302,30 +291,6 @@ Theorem C19_convex_hull_write_bound : forall ijv indexes,
 Proof. exact HullC19Safe.hull_write_bound. Qed.
 Print Assumptions C19_convex_hull_write_bound.
 
-(* Partial, on b01's model of augment (imported; C01_aug_marks_inv Full, C01_aug_flip_chain_partial):
-   for a free row r — whatever stamps earlier rows left in done / on_to_do — IF the search returns a
-   column (premise 1 = aug_scan_nonempty: every rebuild of scan finds a candidate, i.e. an augmenting
-   path exists; augment's memory safety DEPENDS on has_PM: without it p_scan[low] is read past up and
-   the walk runs off the array) and IF the predecessor links form a chain to r (premise 2, chain_ok),
-   then every index written to to_do / scan / ready is below n, the three lists fit into their n
-   entries, the exit column is below n, and the flip loop terminates using indices below n only. *)
-Theorem C19_augment_safe_partial :
-  forall (r n : nat) (rows : list (list (nat * Lapjv.ext))) (y : list nat) (v : list Lapjv.ext) (inf : Lapjv.ext),
-  (forall i j c, In (j, c) (LapjvArr.row rows i) -> (j < n)%nat) ->
-  (forall i, NoDup (map fst (LapjvArr.row rows i))) ->
-  forall (ms : Lapjv.main_state) (s' : Lapjv.aug_state) (j1 : nat) (x chain : list nat),
-  length (Lapjv.m_done ms) = n -> length (Lapjv.m_ontodo ms) = n ->
-  let row_r := Lapjv.rowget rows r in
-  let '(d, ontodo, pred) := Lapjv.aug_init_row r v row_r (repeat inf n) (Lapjv.m_ontodo ms) (Lapjv.m_pred ms) in
-  Lapjv.aug_loop (S (S n)) r n inf rows y v
-    (Lapjv.mkAug d pred (Lapjv.m_done ms) ontodo (map fst row_r) [] [] inf) = Some (s', j1) ->
-  NoDup chain -> length x = n -> length y = n -> LapjvAugFlip.chain_ok r n (Lapjv.g_pred s') x j1 chain ->
-  LapjvAugMarks.Bounds n s' /\ (length (Lapjv.g_todo s') <= n)%nat /\
-  (length (Lapjv.g_ready s') + length (Lapjv.g_scan s') <= n)%nat /\ (j1 < n)%nat /\
-  exists x' y', Lapjv.aug_flip (length chain) r (Lapjv.g_pred s') j1 x y n = Some (x', y') /\
-  length x' = n /\ length y' = n.
-Proof. exact AugC19Safe.augment_safe_partial. Qed.
-Print Assumptions C19_augment_safe_partial.
 
 (* Full (answers "does C07's invariant imply the index ranges?": yes): the loop invariant of C07's
    line-level median model — Slots / AccInv / FineInv, proved Full by C07 — carries the sizes of every
@@ -367,3 +332,84 @@ Print Assumptions C19_reexp_C10_heap_init_position_table.
 Theorem C19_reexp_C10_csp_residual_nonneg : ltac:(let t := type of Centro.Props.C10.C10_csp_residual_nonneg in exact t).
 Proof. exact Centro.Props.C10.C10_csp_residual_nonneg. Qed.
 Print Assumptions C19_reexp_C10_csp_residual_nonneg.
+
+(* ================================================================== round 4 *)
+From Centro Require Proofs.LapjvAugFuel Proofs.LapjvAugPred Props.C01.
+
+(* Full (on b01's model, with b01's PMk invariant): the Dijkstra loop of a free row can fail to return
+   ONLY through a rebuild of scan that comes out empty (Starved).  The out-of-fuel exit is excluded by
+   counting `ready`, the failed cost lookup by "every assigned pair (y[j], j) is a listed pair" (which
+   kernel_pre_augment checks on every recorded call). *)
+Theorem C19_augment_none_is_empty_scan :
+  forall (r n : nat) (rows : list (list (nat * Lapjv.ext))) (y : list nat) (v : list Lapjv.ext) (inf : Lapjv.ext),
+  (forall i j c, In (j, c) (LapjvArr.row rows i) -> (j < n)%nat) ->
+  (forall j, (j < n)%nat -> Lapjv.getn y j n <> n ->
+             Lapjv.cost_at (Lapjv.rowget rows (Lapjv.getn y j n)) j <> None) ->
+  forall fuel s, LapjvAugPred.PMk r n y s -> (n < fuel + length (Lapjv.g_ready s))%nat ->
+  Lapjv.aug_loop fuel r n inf rows y v s = None -> AugC19Safe.Starved r n rows y v inf s.
+Proof. exact AugC19Safe.aug_loop_none_starved. Qed.
+Print Assumptions C19_augment_none_is_empty_scan.
+
+(* Partial, ONE premise left (round 3 had two; chain_ok is now C01's theorem): for a free row r of a
+   state whose x / y are partial inverses, IF no rebuild of scan along the run comes out empty
+   (~ Starved g0 = aug_scan_nonempty), THEN the search returns, every to_do / scan / ready entry is
+   below n and the lists fit into n entries, the exit column is below n, and the flip loop (fuel n+1)
+   returns with x', y' of length n that are partial inverses again.
+   What is still open — here and in C01 — is aug_scan_nonempty from has_PM: in exact arithmetic an empty
+   rebuild means the rows {r} + y[ready] see only the columns of ready (a Hall violator, C01_hall_block),
+   PROVIDED every finite reduced-cost distance is below the initial d = inf = sum(c) + 1; that adequacy
+   of `inf` is the missing lemma.  So augment's memory safety depends on has_PM and on that bound. *)
+Theorem C19_augment_row_safe_partial :
+  forall (r n : nat) (rows : list (list (nat * Lapjv.ext))) (x y : list nat) (v : list Lapjv.ext) (inf : Lapjv.ext),
+  (forall i j c, In (j, c) (LapjvArr.row rows i) -> (j < n)%nat) ->
+  (forall i, NoDup (map fst (LapjvArr.row rows i))) ->
+  (forall j, (j < n)%nat -> Lapjv.getn y j n <> n ->
+             Lapjv.cost_at (Lapjv.rowget rows (Lapjv.getn y j n)) j <> None) ->
+  forall ms : Lapjv.main_state,
+  length x = n -> length y = n -> (r < n)%nat -> LapjvArr.free n y r -> LapjvAugFlip.PIh n x y None ->
+  length (Lapjv.m_done ms) = n -> length (Lapjv.m_ontodo ms) = n -> length (Lapjv.m_pred ms) = n ->
+  let row_r := Lapjv.rowget rows r in
+  let '(d, ontodo, pred) := Lapjv.aug_init_row r v row_r (repeat inf n) (Lapjv.m_ontodo ms) (Lapjv.m_pred ms) in
+  let g0 := Lapjv.mkAug d pred (Lapjv.m_done ms) ontodo (map fst row_r) [] [] inf in
+  ~ AugC19Safe.Starved r n rows y v inf g0 ->
+  exists s' j1, Lapjv.aug_loop (S (S n)) r n inf rows y v g0 = Some (s', j1) /\
+    LapjvAugMarks.Bounds n s' /\ (length (Lapjv.g_todo s') <= n)%nat /\
+    (length (Lapjv.g_ready s') + length (Lapjv.g_scan s') <= n)%nat /\ (j1 < n)%nat /\
+    exists x' y', Lapjv.aug_flip (S n) r (Lapjv.g_pred s') j1 x y n = Some (x', y') /\
+                  length x' = n /\ length y' = n /\ LapjvAugFlip.PIh n x' y' None.
+Proof. exact AugC19Safe.augment_row_safe. Qed.
+Print Assumptions C19_augment_row_safe_partial.
+
+(* C01 round 7 (re-exported, owners' statements): the pred links of a returning search form a chain_ok
+   chain; the flip never runs out of fuel and keeps x / y partial inverses; over all free rows the
+   arrays keep length n; a None of the search is never a fuel artefact; the closing u loop finds
+   every x[i]; whenever lapjv returns, x / y are mutually inverse permutations (all indices < n). *)
+Theorem C19_reexp_C01_aug_pred_chain : ltac:(let t := type of Centro.Props.C01.C01_aug_pred_chain in exact t).
+Proof. exact Centro.Props.C01.C01_aug_pred_chain. Qed.
+Print Assumptions C19_reexp_C01_aug_pred_chain.
+
+Theorem C19_reexp_C01_aug_flip_chain : ltac:(let t := type of Centro.Props.C01.C01_aug_flip_chain in exact t).
+Proof. exact Centro.Props.C01.C01_aug_flip_chain. Qed.
+Print Assumptions C19_reexp_C01_aug_flip_chain.
+
+Theorem C19_reexp_C01_aug_rows_struct : ltac:(let t := type of Centro.Props.C01.C01_aug_rows_struct in exact t).
+Proof. exact Centro.Props.C01.C01_aug_rows_struct. Qed.
+Print Assumptions C19_reexp_C01_aug_rows_struct.
+
+Theorem C19_reexp_C01_aug_loop_fuel : ltac:(let t := type of Centro.Props.C01.C01_aug_loop_fuel in exact t).
+Proof. exact Centro.Props.C01.C01_aug_loop_fuel. Qed.
+Print Assumptions C19_reexp_C01_aug_loop_fuel.
+
+Theorem C19_reexp_C01_final_u_defined : ltac:(let t := type of Centro.Props.C01.C01_final_u_defined in exact t).
+Proof. exact Centro.Props.C01.C01_final_u_defined. Qed.
+Print Assumptions C19_reexp_C01_final_u_defined.
+
+Theorem C19_reexp_C01_lapjv_fixed_pm : ltac:(let t := type of Centro.Props.C01.C01_lapjv_fixed_pm in exact t).
+Proof. exact Centro.Props.C01.C01_lapjv_fixed_pm. Qed.
+Print Assumptions C19_reexp_C01_lapjv_fixed_pm.
+
+(* C10: the heap of min_cost_flow.hpp starts with well-formed entries (premise of the three
+   C10_heap_*_safe theorems re-exported above) *)
+Theorem C19_reexp_C10_heap_init_ok : ltac:(let t := type of Centro.Props.C10.C10_heap_init_ok in exact t).
+Proof. exact Centro.Props.C10.C10_heap_init_ok. Qed.
+Print Assumptions C19_reexp_C10_heap_init_ok.
